@@ -160,6 +160,9 @@ func (b *PresentationSubmissionBuilder) Build(format string) (PresentationSubmis
 func (s PresentationSubmission) Resolve(envelope Envelope) (map[string]vc.VerifiableCredential, error) {
 	result := make(map[string]vc.VerifiableCredential)
 	for _, inputDescriptor := range s.DescriptorMap {
+		if _, exists := result[inputDescriptor.Id]; exists {
+			return nil, fmt.Errorf("multiple mappings for input descriptor '%s'", inputDescriptor.Id)
+		}
 		resolvedCredential, err := resolveCredential(nil, inputDescriptor, envelope.asInterface)
 		if err != nil {
 			return nil, fmt.Errorf("unable to resolve credential for input descriptor '%s': %w", inputDescriptor.Id, err)
